@@ -21,8 +21,13 @@ pub struct OutOfCore(pub String);
 
 impl Ser {
     fn bnode(&mut self, id: &str) -> String {
+        // labels written in the query (`_:s`) are kept — a label may be spelled like a variable —;
+        // the ids spargebra draws at random for `[]` (32 hex digits) are renamed in order of appearance
+        if !(id.len() == 32 && id.bytes().all(|b| b.is_ascii_hexdigit())) {
+            return id.to_string();
+        }
         let n = self.bn.len();
-        self.bn.entry(id.to_string()).or_insert_with(|| format!("p{}", n)).clone()
+        self.bn.entry(id.to_string()).or_insert_with(|| format!("anon{}", n)).clone()
     }
 
     fn lit(&self, l: &Literal) -> T {
@@ -68,6 +73,29 @@ impl Ser {
             Equal(a, b) => bin(self, "eq", a, b)?,
             SameTerm(a, b) => bin(self, "same", a, b)?,
             Less(a, b) => bin(self, "lt", a, b)?,
+            Greater(a, b) => bin(self, "gt", a, b)?,
+            LessOrEqual(a, b) => bin(self, "le", a, b)?,
+            GreaterOrEqual(a, b) => bin(self, "ge", a, b)?,
+            Add(a, b) => bin(self, "add", a, b)?,
+            Subtract(a, b) => bin(self, "sub", a, b)?,
+            Multiply(a, b) => bin(self, "mul", a, b)?,
+            UnaryMinus(a) => format!("neg {}", self.expr(a)?),
+            UnaryPlus(a) => format!("pos {}", self.expr(a)?),
+            If(c, t, e) => format!("if {} {} {}", self.expr(c)?, self.expr(t)?, self.expr(e)?),
+            In(a, l) if !l.is_empty() => {
+                let mut s = format!("in {} {}", self.expr(a)?, l.len());
+                for e in l {
+                    s += &format!(" {}", self.expr(e)?);
+                }
+                s
+            }
+            Coalesce(l) => {
+                let mut s = format!("coalesce {}", l.len());
+                for e in l {
+                    s += &format!(" {}", self.expr(e)?);
+                }
+                s
+            }
             Not(a) => format!("not {}", self.expr(a)?),
             Bound(v) => format!("bound {}", hex(v.as_str())),
             FunctionCall(f, args) if args.len() == 1 => {
@@ -105,6 +133,12 @@ impl Ser {
             LeftJoin { left, right, .. } => format!("leftjoin {} {}", self.gp(left)?, self.gp(right)?),
             Minus { left, right } => format!("minus {} {}", self.gp(left)?, self.gp(right)?),
             Union { left, right } => format!("union {} {}", self.gp(left)?, self.gp(right)?),
+            // FILTER [NOT] EXISTS { pat }: a pattern-level node of the model
+            Filter { expr: Expression::Exists(pat), inner } => format!("fexists 0 {} {}", self.gp(pat)?, self.gp(inner)?),
+            Filter { expr: Expression::Not(e), inner } if matches!(**e, Expression::Exists(_)) => {
+                let Expression::Exists(pat) = &**e else { unreachable!() };
+                format!("fexists 1 {} {}", self.gp(pat)?, self.gp(inner)?)
+            }
             Filter { expr, inner } => format!("filter {} {}", self.expr(expr)?, self.gp(inner)?),
             Graph { name, inner } => {
                 let n = self.named(name);
@@ -236,6 +270,32 @@ impl<'a> De<'a> {
             "eq" => Equal(Box::new(self.expr()?), Box::new(self.expr()?)),
             "same" => SameTerm(Box::new(self.expr()?), Box::new(self.expr()?)),
             "lt" => Less(Box::new(self.expr()?), Box::new(self.expr()?)),
+            "gt" => Greater(Box::new(self.expr()?), Box::new(self.expr()?)),
+            "le" => LessOrEqual(Box::new(self.expr()?), Box::new(self.expr()?)),
+            "ge" => GreaterOrEqual(Box::new(self.expr()?), Box::new(self.expr()?)),
+            "add" => Add(Box::new(self.expr()?), Box::new(self.expr()?)),
+            "sub" => Subtract(Box::new(self.expr()?), Box::new(self.expr()?)),
+            "mul" => Multiply(Box::new(self.expr()?), Box::new(self.expr()?)),
+            "neg" => UnaryMinus(Box::new(self.expr()?)),
+            "pos" => UnaryPlus(Box::new(self.expr()?)),
+            "if" => If(Box::new(self.expr()?), Box::new(self.expr()?), Box::new(self.expr()?)),
+            "in" => {
+                let a = self.expr()?;
+                let n: usize = self.next()?.parse().ok()?;
+                let mut l = vec![];
+                for _ in 0..n {
+                    l.push(self.expr()?);
+                }
+                In(Box::new(a), l)
+            }
+            "coalesce" => {
+                let n: usize = self.next()?.parse().ok()?;
+                let mut l = vec![];
+                for _ in 0..n {
+                    l.push(self.expr()?);
+                }
+                Coalesce(l)
+            }
             "not" => Not(Box::new(self.expr()?)),
             "str" => FunctionCall(Function::Str, vec![self.expr()?]),
             "lang" => FunctionCall(Function::Lang, vec![self.expr()?]),
@@ -274,6 +334,12 @@ impl<'a> De<'a> {
             "union" => Union { left: Box::new(self.gp()?), right: Box::new(self.gp()?) },
             "filter" => {
                 let expr = self.expr()?;
+                Filter { expr, inner: Box::new(self.gp()?) }
+            }
+            "fexists" => {
+                let neg = self.next()? == "1";
+                let pat = Expression::Exists(Box::new(self.gp()?));
+                let expr = if neg { Expression::Not(Box::new(pat)) } else { pat };
                 Filter { expr, inner: Box::new(self.gp()?) }
             }
             "graph" => {
